@@ -327,6 +327,9 @@ pub enum Block {
     End,
     /// A backward GOTO without any guard (may not terminate; run under budget).
     WildBack { hops: u8 },
+    /// Nested loops where NEXT of the outer variable runs while the inner loop is open and a
+    /// later pass bypasses the inner FOR but still reaches NEXT of the inner variable.
+    StaleInner { outer: usize, inner: usize, n1: u8, n2: u8, from_pass: u8, variant: u8 },
 }
 
 #[derive(Debug, Clone, Serialize, Deserialize)]
@@ -432,6 +435,12 @@ fn leaf_block(cfg: GenCfg) -> BoxedStrategy<Block> {
         (1, pick(&[2u8, 5, 31, 32, 33, 40]).prop_map(|n| Block::Recurse { n }).boxed()),
         (1, Just(Block::End).boxed()),
         (if cfg.allow_wild { 1 } else { 0 }, (0u8..6).prop_map(|hops| Block::WildBack { hops }).boxed()),
+        (
+            2,
+            (0..FOR_VARS.len(), 0..FOR_VARS.len(), 2u8..4, 1u8..4, 1u8..4, 0u8..4)
+                .prop_map(|(outer, inner, n1, n2, from_pass, variant)| Block::StaleInner { outer, inner: if inner == outer { (inner + 1) % FOR_VARS.len() } else { inner }, n1, n2, from_pass, variant })
+                .boxed(),
+        ),
     ])
 }
 
@@ -729,6 +738,42 @@ impl Layout {
                 let l = self.new_label();
                 let at = self.push(vec![Stmt::Goto(lbl(l))], false);
                 self.back.push((at, *hops, l));
+            }
+            Block::StaleInner { outer, inner, n1, n2, from_pass, variant } => {
+                let a = FOR_VARS[*outer].to_string();
+                let b = FOR_VARS[*inner].to_string();
+                let skip = self.new_label();
+                let show = |x: &str, y: &str| Stmt::Print(vec![PrintItem::Expr(Expr::var(x)), PrintItem::Semi, PrintItem::Expr(Expr::Str(",".into())), PrintItem::Semi, PrintItem::Expr(Expr::var(y))]);
+                self.push(vec![Stmt::For { var: a.clone(), from: Expr::Num(1.0), to: Expr::Num(*n1 as f64), step: None }], false);
+                self.push(
+                    vec![Stmt::If { cond: Expr::bin(BinOp::Ge, Expr::var(&a), Expr::Num(*from_pass as f64 + 1.0)), then: Branch::Line(lbl(skip)), els: None }],
+                    false,
+                );
+                self.push(vec![Stmt::For { var: b.clone(), from: Expr::Num(1.0), to: Expr::Num(*n2 as f64), step: None }], false);
+                self.push(vec![show(&a, &b)], false);
+                match variant % 4 {
+                    // NEXT of the outer variable while the inner loop is open
+                    0 => {
+                        self.push(vec![Stmt::Next(a.clone())], false);
+                    }
+                    // ... only on some passes
+                    1 => {
+                        self.push(vec![Stmt::If { cond: Expr::bin(BinOp::Lt, Expr::var(&a), Expr::Num(*n1 as f64)), then: Branch::Stmt(Box::new(Stmt::Next(a.clone()))), els: None }], false);
+                    }
+                    // ... or re-entering the outer FOR's line is avoided by jumping to a shared NEXT
+                    2 => {
+                        self.push(vec![Stmt::Next(a.clone()), Stmt::Print(vec![PrintItem::Expr(Expr::Str("out".into()))])], false);
+                    }
+                    _ => {
+                        self.push(vec![Stmt::Next(b.clone())], false);
+                        self.push(vec![Stmt::Next(a.clone())], false);
+                    }
+                }
+                self.push_labeled(skip, vec![show(&b, &a)], false);
+                self.push(vec![Stmt::Next(b.clone())], false);
+                if variant % 2 == 0 {
+                    self.push(vec![Stmt::Next(a)], false);
+                }
             }
         }
     }
